@@ -26,6 +26,8 @@ def catalogue():
     idx = json.load(open(os.path.join(runner.VERIF, 'mutants', 'index.json')))
     out = []
     for name, meta in idx.items():
+        if meta.get('retired'):
+            continue          # overtaken by a later repair of the library (reason in index.json)
         path = os.path.join(runner.VERIF, 'mutants', meta.get('dir', 'candidates'), name + '.patch')
         out.append((name, path, meta))
     for d in sorted(glob.glob(os.path.join(runner.VERIF, 'seeded', '*'))):
